@@ -47,8 +47,21 @@ def seeded():
         out.append(f"| `{m['id']}` {summ} | {needs} | {r} |")
     return f"{tot} confirmed seeded changes, {det} caught by the registered quick checks.\n\n" + "\n".join(out) + "\n"
 
+def checks():
+    ns = {}
+    exec(open(os.path.join(ROOT, "tools", "design_oracles.py")).read(), ns)
+    out = ["| id | level | sub-checks and their measured quick sizes (cases; from the committed evidence) | generator / oracle in brief |", "|---|---|---|---|"]
+    for i in range(1, 21):
+        pid = "C%02d" % i
+        f = os.path.join(ROOT, "evidence", pid + ".json")
+        if not os.path.exists(f): continue
+        e = json.load(open(f))
+        subs = "; ".join(f"`{k}` {v.get('evaluations', 0):,}" + (f" (+{v['inner_evaluations']:,} inner)" if v.get("inner_evaluations") else "") for k, v in e["coverage"].get("checks", {}).items())
+        out.append(f"| {pid} | {e['level']} | {subs} | {ns['ORACLES'].get(pid, '')} |")
+    return "\n".join(out) + "\n"
+
 s = open(os.path.join(ROOT, "DESIGN.md")).read()
-for name, fn in (("findings", findings), ("seeded", seeded)):
+for name, fn in (("findings", findings), ("seeded", seeded), ("checks", checks)):
     b, e = f"<!-- BEGIN GENERATED:{name} -->", f"<!-- END GENERATED:{name} -->"
     if b in s and e in s:
         s = s[:s.index(b) + len(b)] + "\n" + fn() + s[s.index(e):]
